@@ -2,6 +2,8 @@
 configurations, the checker's own reference model of rigid motions (homogeneous matrices, Hamilton product)."""
 import multiprocessing
 import os
+import itertools
+from fractions import Fraction
 import time
 import traceback
 
@@ -48,7 +50,62 @@ def size_constants(results):
     return sorted(x for x in out if 2 <= x <= 20000)
 
 
-def run_obligation(pkg, fn, hook=None, max_paths=256, allow_size_thresholds=False):
+def zero_divisor_witness(it, free=lambda name: True, limit=4000):
+    """Look for an input of the domain (unit quaternions, angles at multiples of pi/2, free reals in {0, 1, -1, 1/2}) at which a
+    divisor recorded on this path vanishes while all the decisions taken before the division hold.  Returns a description or None.
+    Only a *verified* point is reported: the polynomial is evaluated exactly at it."""
+    import re as _re
+    from .interp import base_variables, PI_NAME
+    for ev in it.events:
+        if ev[0] != "division":
+            continue
+        den, where, facts = ev[1], ev[2], ev[3]
+        names = set(base_variables(den))
+        for k in facts:
+            names |= base_variables(Poly(dict(k)))
+        if PI_NAME in names:
+            continue
+        groups, singles, angles, ok = {}, [], [], True
+        for v in sorted(names):
+            m = _re.fullmatch(r"(.+)\[([3-6])\]", v)
+            if m and poly.R.vidx.get("%s[6]" % m.group(1)) in poly.R.sq_rules and v not in poly.R.angles:
+                groups.setdefault(m.group(1), None)
+            elif v in poly.R.angles:
+                angles.append(v)
+            elif free(v):
+                singles.append(v)
+            else:
+                ok = False
+        if not ok:
+            continue
+        quats = [(0, 0, 0, 1), (1, 0, 0, 0), (0, 1, 0, 0), (0, 0, 1, 0), (0, 0, 0, -1)]
+        axes = [[dict(zip(["%s[%d]" % (g, i) for i in (3, 4, 5, 6)], map(Fraction, q))) for q in quats] for g in sorted(groups)]
+        axes += [[{"cos(%s)" % a: Fraction(c), "sin(%s)" % a: Fraction(s_)} for c, s_ in ((1, 0), (0, 1), (-1, 0), (0, -1))] for a in angles]
+        axes += [[{v: Fraction(x)} for x in (0, 1, -1, Fraction(1, 2))] for v in singles]
+        n = 0
+        for combo in itertools.product(*axes):
+            n += 1
+            if n > limit:
+                break
+            env = {}
+            for d_ in combo:
+                env.update(d_)
+            val = poly.eval_at(den, env)
+            if val is None or val != 0:
+                continue
+            good = True
+            for k, signs in facts.items():
+                fv = poly.eval_at(Poly(dict(k)), env)
+                if fv is None or ((fv > 0) - (fv < 0)) not in signs:
+                    good = False
+                    break
+            if good:
+                pt = ", ".join("%s=%s" % (a, b) for a, b in sorted(env.items()) if "#" not in a)
+                return "the divisor %s at %s is zero at the admissible input {%s}: the result there is inf/nan" % (den.short(80), where, pt[:300])
+    return None
+
+
+def run_obligation(pkg, fn, hook=None, max_paths=256, allow_size_thresholds=False, divisors=None):
     """fn(it) -> stats dict, or raises ObFail(detail).  All paths are explored; every path must succeed.
 
     Returns dict(status, detail, paths, stats)."""
@@ -58,7 +115,18 @@ def run_obligation(pkg, fn, hook=None, max_paths=256, allow_size_thresholds=Fals
             global CURRENT
             CURRENT = it
             try:
-                res = fn(it)
+                try:
+                    res = fn(it)
+                except (AnalysisError, ObFail, PathRaise):
+                    if divisors is not None:
+                        w = zero_divisor_witness(it, divisors)
+                        if w:
+                            raise ObFail(w)
+                    raise
+                if divisors is not None:
+                    w = zero_divisor_witness(it, divisors)
+                    if w:
+                        raise ObFail(w)
                 thr = [e for e in it.events if e[0] == "size-threshold"]
                 if thr and not allow_size_thresholds:
                     raise Unsupported("the behaviour depends on the size of a collection (%s): a finite scenario cannot speak for larger "
